@@ -80,7 +80,7 @@ def run(module, cfg=None, workers=16, env=None, timeout=600, mode='mc', coverage
         cmd += list(javaopts)
     cmd += ['-cp', JAR + ':' + DEPS, 'tlc2.TLC',
             '-workers', str(workers), '-metadir', meta, '-noGenerateSpecTE',
-            '-config', cfg + '.cfg']
+            '-config', cfg if cfg.endswith('.cfg') else cfg + '.cfg']
     if coverage:
         cmd += ['-coverage', '1']
     if not deadlock:
